@@ -448,9 +448,16 @@ def n3(e: Engine, rep: Report, K: Kinds):
         def resolves_request(builder, call, target, frame):
             # helpers of the same object that resolve the request
             # themselves are looked into; the protocol steps are not
-            return target.recv_is_self and frame.self_same and any(
-                isinstance(x, ast.Attribute) and x.attr == 'set' and
-                isinstance(x.ctx, ast.Load)
+            # (nor is a helper that only strings the stages together)
+            STAGES = ('_send_envelope', '_send_message_data')
+            if not (target.recv_is_self and frame.self_same) or \
+                    target.func.name in STAGES:
+                return False
+            return any(
+                isinstance(x, ast.Attribute) and isinstance(x.ctx, ast.Load)
+                and (x.attr == 'set' or (
+                    x.attr in STAGES and isinstance(x.value, ast.Name) and
+                    x.value.id == 'self'))
                 for x in ast.walk(target.func.node))
         g = e.build(ctx, inline=resolves_request,
                     raises=pool.make_raises(e), assert_raises=False)
@@ -779,16 +786,42 @@ def n4(e: Engine, rep: Report, K: Kinds):
         ctx = e.method_ctx(cq, 'raise_error')
         if ctx.func.cls.qname != cq:
             continue
-        g = e.build(ctx)
+        g = e.build(ctx, inline=e.inline_same_self(), max_depth=3)
         fx = e.facts(g)
         where = ctx.func.qname
         rep.functions.add(where)
         classes = set()
+        # a flag computed once (`permanent = <pattern>.match(msg)`) stands
+        # for its definition
+        flagdefs = {}
+        for s2 in g.of_kind('stmt'):
+            if isinstance(s2.ast, ast.Assign) and \
+                    len(s2.ast.targets) == 1 and \
+                    isinstance(s2.ast.targets[0], ast.Name):
+                flagdefs.setdefault(path_of(s2.ast.targets[0], s2.frame),
+                                    []).append(s2)
         for n in g.of_kind('stmt'):
             if not isinstance(n.ast, ast.Raise) or fx.at(n) is None:
                 continue
             toks = [l[1] for l, s in n.succ if isinstance(l, tuple)]
-            st = fx.at(n)
+            st = set(fx.at(n))
+            frames = {x.frame.id: x.frame for x in g.nodes}
+            for _ in range(3):
+                for pp, k in list(st):
+                    nm, _h, fid = k.rpartition('#')
+                    fr = frames.get(int(fid)) if fid.isdigit() and nm.isidentifier() else None
+                    try:
+                        if fr is not None and nm in getattr(
+                                fr, 'arg_exprs', {}):
+                            # a helper's parameter: what it was given
+                            ax, afr = fr.arg_exprs[nm]
+                            st.update(atoms_of_test(ax, pp, afr))
+                        ds = flagdefs.get(k)
+                        if ds and len(ds) == 1:
+                            st.update(atoms_of_test(ds[0].ast.value, pp,
+                                                    ds[0].frame))
+                    except Exception:
+                        pass
             for t in toks:
                 rep.evaluations += 1
                 if p.is_subclass(t, TRANS):
@@ -1114,7 +1147,24 @@ def n4_dns(e: Engine, rep: Report):
         def loc(self, x=None):
             return '%s:%s' % (c.module.relpath,
                               getattr(x, 'lineno', c.node.lineno))
-    for mname, m in sorted(c.methods.items()) + [('<class body>', _Body())]:
+    used = {x.id for m in c.methods.values() for x in ast.walk(m.node)
+            if isinstance(x, ast.Name)}
+
+    class _ModTables:
+        # module-level tables the class's methods name
+        qname = c.module.name
+
+        def __init__(self):
+            self.node = ast.Module(body=[
+                st for st in c.module.tree.body
+                if isinstance(st, ast.Assign) and any(
+                    isinstance(t, ast.Name) and t.id in used
+                    for t in st.targets)], type_ignores=[])
+
+        def loc(self, x=None):
+            return '%s:%s' % (c.module.relpath, getattr(x, 'lineno', 1))
+    for mname, m in sorted(c.methods.items()) + [
+            ('<class body>', _Body()), ('<module tables>', _ModTables())]:
         for x in walk_own(m.node):
             if isinstance(x, (ast.Name, ast.Attribute)):
                 nm = x.id if isinstance(x, ast.Name) else x.attr
